@@ -7,15 +7,13 @@ From CGV Require Import Base.PyBase Base.PyVal Base.NxGraph Resolve.Bonding Reso
 Import ListNotations.
 Open Scope Z_scope.
 
-(** the faithful model violates C02 when a virtual node precedes a real one (class virtual_not_last):
-    witness {[#V].[#A][#B]}.{#A=[$][#X][#Y],#B=[$][#P]} *)
-Theorem C02_refuted :
-  virtual_not_last fd_AB base_VAB = true /\ exists n, c02_of base_VAB = Ok n /\ n <> 0%nat.
-Proof. split; [reflexivity|]. eexists. split; [vm_compute; reflexivity|discriminate]. Qed.
-
-(** non-vacuity: outside the class the clauses hold on the model's output *)
-Example C02_holds_AB : virtual_not_last fd_AB base_ABV = false /\ c02_of base_ABV = Ok 0%nat /\ c02_of base_AB = Ok 0%nat.
-Proof. repeat split; vm_compute; reflexivity. Qed.
+(** the former witness of defect class virtual_not_last (a virtual node BEFORE real nodes,
+    {[#V].[#A][#B]}.{#A=[$][#X][#Y],#B=[$][#P]}; repaired in /repo fa307dd: fragid := the coarse key):
+    every clause of C02 holds on the model's output, wherever the virtual node stands *)
+Example C02_holds_virtual_first : c02_of base_VAB = Ok 0%nat.
+Proof. vm_compute. reflexivity. Qed.
+Example C02_holds_AB : c02_of base_ABV = Ok 0%nat /\ c02_of base_AB = Ok 0%nat.
+Proof. split; vm_compute; reflexivity. Qed.
 
 (** ---- annotate_fragments: the coarse 'graph' attributes, for every coarse graph and fine graph *)
 (** frag_exact: coarse node k carries exactly the fine nodes whose fragid lists k *)
@@ -64,7 +62,6 @@ Proof.
   split; [repeat constructor; cbn; tauto|reflexivity].
 Qed.
 
-Print Assumptions C02_refuted.
 Print Assumptions C02_frag_exact.
 Print Assumptions C02_frag_cover.
 Print Assumptions C02_fragid_singleton.
